@@ -185,6 +185,10 @@ def run(ctx):
     # what is emitted: the header, then every section in logical-layout order, then the functions (nothing skipped) -- C01's lemma 3
     import c01
     c01.emission_order_lemma(ctx, registry, mf)
+    # the structure the loader will demand is the structure the Builder enforces: every call from every valid state (C12's step
+    # check: brackets, which function / block receives what, nothing on a failed call)
+    import c12
+    c12.run(ctx)
     # what the loader reads back: context-dependent literals (64-bit constants, OpSwitch cases on any 64-bit value) keep their width
     import c10
     import parsersym
